@@ -51,6 +51,7 @@ def leaves : Val → List Item
   | .zstk f => [.val (.zstk f)]
   | .zcnd f => [.val (.zcnd f)]
   | .anys xs => [.val (.anys xs)]
+  | .opv o => [.val (.opv o)]
 def leavesL : List Val → List Item
   | [] => []
   | x :: xs => leaves x ++ leavesL xs
@@ -65,6 +66,7 @@ def depth : Val → Nat
   | .zstk _ => 0
   | .zcnd _ => 0
   | .anys _ => 0
+  | .opv _ => 0
 def depthL : List Val → Nat
   | [] => 0
   | x :: xs => max (depth x) (depthL xs)
@@ -88,6 +90,7 @@ def kept : Val → List Mark
   | .zstk _ => []
   | .zcnd _ => []
   | .anys _ => []
+  | .opv _ => []
 def keptL : List Val → List Mark
   | [] => []
   | x :: xs => kept x ++ keptL xs
@@ -266,6 +269,7 @@ def nf : Val → Val
   | .zstk f => .zstk f
   | .zcnd f => .zcnd f
   | .anys xs => .anys xs
+  | .opv o => .opv o
 /-- normal forms of the elements of a stack: each normalised, then removed if redundant -/
 def nfL : List Val → List Val
   | [] => []
@@ -285,6 +289,7 @@ theorem okChild_peel_nf {ch : Val} (h : okChild ch = true) : okChild (peel (nf c
   | nil => simp [okChild] at h
   | leaf l => simp [okChild] at h
   | anys xs => simp [okChild] at h
+  | opv o => simp [okChild] at h
   | zstk f => cases f <;> simp_all [okChild, nf, peel]
   | zcnd f => cases f <;> simp_all [okChild, nf, peel]
   | cnd f c kw op ex => cases f <;> simp_all [okChild, nf, peel]
@@ -333,6 +338,7 @@ theorem nf_star : ∀ (t : Val), UnwrapStar t (nf t)
   | .zstk f => by simp only [nf]; exact .refl _
   | .zcnd f => by simp only [nf]; exact .refl _
   | .anys xs => by simp only [nf]; exact .refl _
+  | .opv o => by simp only [nf]; exact .refl _
   | .stk f c xs => by
       simp only [nf]
       exact (UnwrapStar.single (.native f c xs)).trans (star_stk_of_forall₂ .native c xs (nfL xs) (nfL_all₂ xs))
@@ -388,6 +394,7 @@ def beqV : Val → Val → Bool
   | .zstk f, t => (match t with | .zstk f' => f == f' | _ => false)
   | .zcnd f, t => (match t with | .zcnd f' => f == f' | _ => false)
   | .anys xs, t => (match t with | .anys xs' => beqL xs xs' | _ => false)
+  | .opv o, t => (match t with | .opv o' => o == o' | _ => false)
 def beqL : List Val → List Val → Bool
   | [], ys => (match ys with | [] => true | _ => false)
   | x :: xs, ys => (match ys with | y :: ys' => beqV x y && beqL xs ys' | [] => false)
@@ -399,6 +406,7 @@ theorem beqV_sound : ∀ (a b : Val), beqV a b = true → a = b
   | .leaf a, b, h => by cases b <;> simp_all [beqV]
   | .zstk f, b, h => by cases b <;> simp_all [beqV]
   | .zcnd f, b, h => by cases b <;> simp_all [beqV]
+  | .opv o, b, h => by cases b <;> simp_all [beqV]
   | .anys xs, b, h => by
       cases b <;> simp [beqV] at h
       rename_i ys
@@ -438,6 +446,7 @@ def reach : Val → Val → Bool
   | .zstk f, t' => beqV (.zstk f) t'
   | .zcnd f, t' => beqV (.zcnd f) t'
   | .anys xs, t' => beqV (.anys xs) t'
+  | .opv o, t' => beqV (.opv o) t'
 /-- `t'` from `t` standing as an element of a stack: additionally `t` itself may be a
 redundant wrapper that is removed (after its child has become `t'`) -/
 def reachE : Val → Val → Bool
@@ -453,6 +462,7 @@ def reachE : Val → Val → Bool
   | .zstk f, t' => beqV (.zstk f) t'
   | .zcnd f, t' => beqV (.zcnd f) t'
   | .anys xs, t' => beqV (.anys xs) t'
+  | .opv o, t' => beqV (.opv o) t'
 /-- the only element of a one-element list reaches `t'` in element position -/
 def reachW : List Val → Val → Bool
   | [], _ => false
@@ -480,6 +490,7 @@ theorem reach_sound : ∀ (t t' : Val), reach t t' = true → UnwrapStar t t'
   | .zstk f, t', h => by simp only [reach] at h; exact .of_eq (beqV_sound _ _ h)
   | .zcnd f, t', h => by simp only [reach] at h; exact .of_eq (beqV_sound _ _ h)
   | .anys xs, t', h => by simp only [reach] at h; exact .of_eq (beqV_sound _ _ h)
+  | .opv o, t', h => by simp only [reach] at h; exact .of_eq (beqV_sound _ _ h)
   | .stk f c xs, t', h => by
       cases t' <;> simp [reach] at h
       rename_i f' c' xs'
@@ -498,6 +509,7 @@ theorem reachE_sound : ∀ (t t' : Val), reachE t t' = true → ERel t t'
   | .zstk f, t', h => by simp only [reachE] at h; exact .of_star (.of_eq (beqV_sound _ _ h))
   | .zcnd f, t', h => by simp only [reachE] at h; exact .of_star (.of_eq (beqV_sound _ _ h))
   | .anys xs, t', h => by simp only [reachE] at h; exact .of_star (.of_eq (beqV_sound _ _ h))
+  | .opv o, t', h => by simp only [reachE] at h; exact .of_star (.of_eq (beqV_sound _ _ h))
   | .cnd f c kw op ex, t', h => by
       cases t' <;> simp [reachE] at h
       rename_i f' c' kw' op' ex'
